@@ -43,6 +43,15 @@ mod libmv {
     use ::glam_libm as glam;
     include!("suite.rs");
 }
+/// the same checks with `glam-assert` compiled in: the generated inputs satisfy the documented preconditions,
+/// so a panic there is a failure
+#[cfg(not(feature = "core"))]
+mod asserting {
+    pub const VARIANT: &str = "simd+glam-assert";
+    pub const SIMD_SIN: bool = cfg!(all(target_arch = "x86_64", target_feature = "sse2"));
+    use ::glam_assert as glam;
+    include!("suite.rs");
+}
 #[cfg(feature = "core")]
 mod core_simd {
     pub const VARIANT: &str = "core";
@@ -58,6 +67,7 @@ fn main() {
     {
         subs.extend(simd::subs(&args));
         subs.extend(scalar::subs(&args));
+        subs.extend(asserting::subs(&args));
         subs.extend(libmv::subs(&args));
     }
     #[cfg(feature = "core")]
